@@ -25,6 +25,13 @@ Not demanded (left out on purpose)
     The sharing pattern is part of the explored state and its frequency is reported in the evidence;
   * what an in-place method does to its own object (C04/C08), and whether results are numerically right (C06);
   * Quantity.to(<Quantity>) and direct writes into arrays handed out by value().
+Cached read-outs are not trusted: units() and value() return strings/numbers computed when the unit object was
+built, so an operation can rewrite the exponent table or another internal of an operand without these changing.  After
+every step a fingerprint of EVERY attribute of each untouched object's Magnitude and BaseUnits is compared; when it
+changed although value/units/uncertainty read the same, the object's *recomputed* reports (value(u) in the pool's
+units; value/units/uncertainty of q*1, q*q, sqrt(q) and of q after rebase(), each on a private deep copy) are compared
+with those of the same object in the same history without the last step; a difference is a violation (behaviour
+value-query-answer-changed / derived-result-changed).
 "Reporting the same value" includes the answers to value(<unit>): when an untouched object reports the same
 value/units/uncertainty but the numbers a conversion reads from it changed (cheap structural fingerprint), its
 value(u) answers for the pool's units are compared with those of the same object in the same history without the
@@ -84,6 +91,12 @@ POOLS = {
     "array_scalar":  dict(objs=[("a", [1.0, 2.0, 3.0], "m", None, None), ("f", 50.0, "cm", None, None)],
                           units=["m", "cm", "cm2"]),
     "uncertainty":   dict(objs=[("f", 1.0, "m", 0.1, None), ("f", 30.0, "cm", None, 10.0)], units=["m", "cm", "cm2"]),
+    # arrays with one uncertainty per element; the partner is exact in the first pool (a+exact, a-exact hand the
+    # uncertainty of a through) and carries a relative uncertainty in the second
+    "array_uncertainty":      dict(objs=[("a", [1.0, 2.0, 3.0], "m", [0.1, 0.2, 0.4], None),
+                                         ("a", [10.0, 20.0, 30.0], "cm", None, None)], units=["m", "cm", "cm2"]),
+    "array_uncertainty_both": dict(objs=[("a", [1.0, 2.0, 3.0], "m", [0.1, 0.2, 0.4], None),
+                                         ("a", [10.0, 20.0, 30.0], "cm", None, 10.0)], units=["m", "cm", "cm2"]),
     "temperature":   dict(objs=[("f", 20.0, "Cel", None, None), ("f", 300.0, "K", None, None)],
                           units=["K", "Cel", "degF"]),
     "three":         dict(objs=[("f", 2.0, "m", None, None), ("f", 50.0, "cm", None, None), ("f", 4.0, "s", None, None)],
@@ -95,7 +108,9 @@ FEATURES = {
     "percent": ["dimensionless-unit"], "plain": ["no-unit"], "decimal_left": ["decimal", "different-unit"],
     "decimal_right": ["decimal", "different-unit"], "decimal_both": ["decimal", "different-unit"],
     "array": ["array", "different-unit"], "array_scalar": ["array", "different-unit"],
-    "uncertainty": ["uncertainty", "different-unit"], "temperature": ["temperature", "different-unit"],
+    "uncertainty": ["uncertainty", "different-unit"],
+    "array_uncertainty": ["array", "uncertainty", "different-unit"],
+    "array_uncertainty_both": ["array", "uncertainty", "different-unit"], "temperature": ["temperature", "different-unit"],
     "three": ["different-unit", "three-operands"],
 }
 
@@ -168,7 +183,7 @@ def make(spec):
         val = list(val)
     kw = {}
     if abse is not None:
-        kw["abse"] = abse
+        kw["abse"] = list(abse) if isinstance(abse, (list, tuple)) else abse
     if rele is not None:
         kw["rele"] = rele
     return Quantity(val, unit, **kw)
@@ -199,25 +214,42 @@ def show(q):
     return [repr(q.value()), q.units(), repr(q.abse())]
 
 
+def _fp(v):
+    if isinstance(v, np.ndarray):
+        return ("nd", str(v.dtype), v.shape, v.tobytes().hex())
+    if isinstance(v, dict):
+        return tuple((repr(k), repr(x)) for k, x in v.items())
+    return (type(v).__name__, repr(v))
+
+
 def fingerprint(q):
-    """cheap structural summary of what conversions read besides the reported numbers (never judged by itself:
-    a change only triggers the value-query comparison below)"""
+    """structural summary of EVERY attribute of the object's Magnitude and BaseUnits (the internals that later
+    operations recompute from, not only the cached read-outs units()/value() return).  Never judged by itself:
+    a change only triggers the behavioural comparison of derived_report() below"""
     m, bu = q.magnitude, q.baseunits
-    return (type(m.value).__name__, type(m.error).__name__, type(bu.magnitude).__name__, repr(bu.magnitude),
-            repr(bu), repr(bu.dimensions))
+    return (tuple((k, _fp(v)) for k, v in sorted(vars(m).items())),
+            tuple((k, _fp(v)) for k, v in sorted(vars(bu).items())))
 
 
-def query_report(pname, q):
-    """what the object answers to value(u) for the units of its pool; asked on a shallow clone (new Quantity,
-    Magnitude and BaseUnits shells around the same attribute values) so that a defective query cannot disturb
-    the pool"""
-    c = copy.copy(q)
-    c.magnitude = copy.copy(q.magnitude)
-    c.baseunits = copy.copy(q.baseunits)
+PROBES = {
+    "mul_one": lambda d: d * 1,            # rebuilds the units from the exponent table
+    "self_product": lambda d: d * d,
+    "np.sqrt": np.sqrt,
+    "rebase": lambda d: d.rebase(),
+}
+
+
+def derived_report(pname, q):
+    """what the object answers when its reports are RECOMPUTED from its internals: value(u) in the units of its pool,
+    and value/units/uncertainty of q*1, q*q, sqrt(q) and of q after rebase().  Every probe runs on its own deep copy
+    of the object, so a probe can neither disturb the pool nor another probe"""
     out = []
     for u in POOLS[pname]["units"]:
-        o = outcome(c.value, u)
-        out.append((u, _num(o[1]) if o[0] == "ok" else ("err", o[1])))
+        o = outcome(copy.deepcopy(q).value, u)
+        out.append(("value:%s" % u, _num(o[1]) if o[0] == "ok" else ("err", o[1])))
+    for name, fn in PROBES.items():
+        o = outcome(fn, copy.deepcopy(q))
+        out.append((name, observe(o[1]) if o[0] == "ok" else ("err", o[1])))
     return out
 
 
@@ -298,7 +330,7 @@ def run_history(pname, hist):
                 # does the object still answer value(u) as it did before this step?  (before = same history
                 # without the last step, re-executed from fresh operands)
                 ref_pool, _, _, _ = run_history(pname, hist[:k])
-                was, now = query_report(pname, ref_pool[i]), query_report(pname, pool[i])
+                was, now = derived_report(pname, ref_pool[i]), derived_report(pname, pool[i])
                 if was == now:
                     continue
                 hidden = (was, now)
@@ -322,10 +354,13 @@ def run_history(pname, hist):
                 tags.append("op-raised")
             if hidden:
                 diff = [(w, n) for w, n in zip(*hidden) if w != n][0]
+                probe = diff[0][0]
                 rec = failure(sub, dict(pool=pname, history=[list(h) for h in hist[:k + 1]]),
-                              dict(object=i, reports=shown[i], value_query=[diff[0][0], list(diff[0][1])]),
-                              dict(object=i, reports=show(pool[i]), value_query=[diff[1][0], list(diff[1][1])]),
-                              tags=tags + ["reported-value-unchanged"], behaviour="value-query-answer-changed")
+                              dict(object=i, reports=shown[i], probe=probe, answer=repr(diff[0][1])),
+                              dict(object=i, reports=show(pool[i]), probe=probe, answer=repr(diff[1][1])),
+                              tags=tags + ["reported-value-unchanged", "probe=" + probe.split(":")[0]],
+                              behaviour="value-query-answer-changed" if probe.startswith("value:")
+                              else "derived-result-changed")
             else:
                 rec = failure(sub, dict(pool=pname, history=[list(h) for h in hist[:k + 1]]),
                               dict(object=i, reports=shown[i]), dict(object=i, reports=show(pool[i])),
@@ -504,8 +539,9 @@ def finish(total, tier, seed):
 
 
 MANIFEST = dict(
-    text="Explicit-state exploration on live Quantity objects: from 16 operand pools (same unit, different unit, "
+    text="Explicit-state exploration on live Quantity objects: from 18 operand pools (same unit, different unit, "
          "compound, dB, dBm, angle, percent, plain numbers, Decimal left/right/both, arrays, array+scalar, uncertainties, "
+         "arrays with per-element uncertainties (exact / uncertain partner), "
          "temperatures, three operands) every history of length 1 and 2 over the complete alphabet (8 binary operators "
          "and comparisons incl. linspace/logspace on every ordered pair, 32 unary forms incl. reflected arithmetic with "
          "plain numbers, powers, indexing and 16 NumPy functions, value queries in 3 units, and the in-place methods "
